@@ -156,6 +156,8 @@ def run_patched(mod, names, LF, delays, call):
 def oracle_srs(case, R):
     from pyyeti import srs
     sig = make_signal(case)
+    sig, lab_ = util.repack(sig, case.get("spack", "same"))     # same container for the serial and the parallel run
+    R.label("sig:" + lab_)
     sr = case["sr"]
     freq = np.array(case["freq"], float)
     LF = len(freq)
@@ -225,7 +227,8 @@ def srs_cases(draw):
             "time": draw(st.sampled_from(["primary", "total", "residual"])), "getresp": draw(st.booleans()),
             "eqsine": draw(st.booleans()), "maxcpu": draw(st.sampled_from([1, 2, 3, 4, 7, 16, None])),
             "delay": draw(st.sampled_from(["none", "reverse", "random", "random", "straggler"])),
-            "offset": draw(st.sampled_from([0.0, 3.0])), "seed": draw(st.integers(0, 2 ** 31))}
+            "offset": draw(st.sampled_from([0.0, 3.0])), "seed": draw(st.integers(0, 2 ** 31)),
+            "spack": draw(st.sampled_from(["same", "same", "fortran", "strided", "readonly", "list"]))}
 
 
 @st.composite
